@@ -760,6 +760,14 @@ where
             ));
         }
 
+        // The welcome rumors carry the group's relays, and a welcome without a relay is
+        // refused by process_welcome: check before anything is committed.
+        if self.get_relays(group_id)?.is_empty() {
+            return Err(Error::Group(
+                "At least one relay is required to invite members".to_string(),
+            ));
+        }
+
         // Parse key packages from events
         let mut key_packages_vec: Vec<KeyPackage> = Vec::new();
         for event in key_package_events {
@@ -1153,6 +1161,14 @@ where
 
         // Validate group members
         self.validate_group_members(creator_public_key, &member_pubkeys, &admins)?;
+
+        // Invited members receive a welcome rumor whose `relays` tag must name at least one
+        // relay (process_welcome refuses it otherwise), so inviting needs a relay.
+        if !member_key_package_events.is_empty() && config.relays.is_empty() {
+            return Err(Error::Group(
+                "At least one relay is required to invite members".to_string(),
+            ));
+        }
 
         let (credential, signer) = self.generate_credential_with_key(creator_public_key)?;
 
